@@ -16,6 +16,31 @@ pub fn gen_case(r: &mut Rng, max: usize, allow_neg_circuit: bool) -> (Model, &'s
     if r.below(64) == 0 {
         return (gen::fixture_weighted(r), "repo_fixture_weighted", "repo_fixture_weighted");
     }
+    if r.below(40) == 0 {
+        // Legal weights of magnitude 2^62: positions alternate between
+        // potential ~0 and ~+2^62 along a forward DAG, so every walk weight
+        // (and every sum of two distances) stays within +-(2^62 + small).
+        const H: i64 = 1 << 62;
+        let n = r.range(2, max.clamp(2, 10));
+        let mut ids: Vec<usize> = (0..n).collect();
+        r.shuffle(&mut ids);
+        let mut m = Model::new(n);
+        for i in 0..n {
+            for j in (i + 1)..n {
+                let chain = j == i + 1;
+                if !(chain || r.chance(0.3)) {
+                    continue;
+                }
+                let w = match (i % 2, j % 2) {
+                    (0, 1) => H + r.irange(0, 20),
+                    (1, 0) => -H + r.irange(0, 20),
+                    _ => r.irange(0, 20),
+                };
+                m.add(ids[i], ids[j], w);
+            }
+        }
+        return (m, "magnitude_2^62_alternating", "dag");
+    }
     let wf = r.below(WFAMS.len());
     let n = if r.chance(0.3) { gen::algo_order(r, max, 65) } else { gen::small_order(r, max) };
     let big = n > max;
